@@ -232,8 +232,10 @@ class StringLiteral(StrCompareMixin, _Literal):
         # Remove quotation marks
         if value[0] == value[-1] and value[0] in '"\'':
             if value[0] == '"':
-                # Inside double quotes, a doubled double quote denotes a single one
-                value = value[1:-1].replace('""', '"')
+                # Inside double quotes, a doubled double quote denotes a single one, and every
+                # single quote is a character of its own: keep it in the doubled form that it
+                # has between single quotes, which is how the value is stored and written
+                value = value[1:-1].replace('""', '"').replace("'", "''")
             else:
                 value = value[1:-1]
 
